@@ -48,6 +48,17 @@ from .values import (
 
 CALLABLE_TYPES = (Closure, BoundMethod, Builtin, Partial, ClassVal)
 
+_PARSE_CACHE = {}
+
+
+def _parse_file(path):
+    """sources are re-read from /repo on every run (once per process); the parsed AST is shared by all paths"""
+    key = (path, os.path.getmtime(path))
+    if key not in _PARSE_CACHE:
+        src = open(path, encoding="utf-8").read()
+        _PARSE_CACHE[key] = (src, ast.parse(src, filename=path))
+    return _PARSE_CACHE[key]
+
 
 class Interp:
     def __init__(self, ctx, repo_root, pkg="aioftp", hooks=None):
@@ -83,8 +94,7 @@ class Interp:
             path = os.path.join(path, "__init__.py")
         else:
             path += ".py"
-        src = open(path, encoding="utf-8").read()
-        tree = ast.parse(src, filename=path)
+        src, tree = _parse_file(path)
         mod = ModuleVal(name)
         mod.file = path
         mod.source = src
@@ -1017,7 +1027,8 @@ class Interp:
         name = getattr(s, "name", "<lambda>")
         qn = (qual + "." + name) if qual else name
         qn = qn.lstrip(".")
-        clo = Closure(s, env, qn, self.cur_module, defining_class=getattr(env, "class_being_defined", None))
+        module = self.call_stack[-1].module if self.call_stack else self.cur_module
+        clo = Closure(s, env, qn, module, defining_class=getattr(env, "class_being_defined", None))
         a = s.args
         pos_defaults = [self.eval(d, env) for d in a.defaults]
         kw_defaults = {}
